@@ -154,6 +154,11 @@ def check(prop, tier, procs=None, only=None):
         m = importlib.import_module(modname)
         if hasattr(m, "extra_checks"):
             extra.extend(m.extra_checks(prop, tier, seed) or [])
+    try:
+        from contracts import crosscheck as _xc           # thorough tier: native-vs-symbolic engine cross-check (bounded)
+        extra.extend(_xc.extra_checks(prop, tier, seed) or [])
+    except Exception as e:      # noqa: BLE001
+        extra.append(dict(id="crosscheck.native-vs-symbolic", status="engine-error", counts_as_obligation=False, note=repr(e)))
 
     refuted = [o for o in obligations if o["status"] == "refuted"]
     undecided = [o for o in obligations if o["status"] == "undecided"]
